@@ -372,11 +372,19 @@ def colang_block(b, ind, out):
         elif k == "set":
             out.append(f"{pad}${s[1]} = {s[2]}")
         elif k == "if":
-            out.append(f"{pad}if {s[1]}")
-            colang_block(s[2], ind + 2, out)
-            if s[3]:
-                out.append(f"{pad}else")
-                colang_block(s[3], ind + 2, out)
+            # an `if` whose else part is exactly one `if` and that carries the "elif" marker is
+            # written as an `else if` chain (the parser desugars it back to the nested form)
+            cur, kw = s, "if"
+            while True:
+                out.append(f"{pad}{kw} {cur[1]}")
+                colang_block(cur[2], ind + 2, out)
+                if len(cur) > 4 and cur[4] == "elif" and len(cur[3]) == 1 and cur[3][0][0] == "if":
+                    cur, kw = cur[3][0], "else if"
+                    continue
+                if cur[3]:
+                    out.append(f"{pad}else")
+                    colang_block(cur[3], ind + 2, out)
+                break
         elif k == "while":
             out.append(f"{pad}while {s[1]}")
             colang_block(s[2], ind + 2, out)
@@ -555,7 +563,14 @@ class Gen:
                 self.stats["if"] += 1
                 t = self.block(depth - 1, rng.randint(1, 3), inloop, insub)
                 e = self.block(depth - 1, rng.randint(1, 3), inloop, insub) if rng.random() < 0.55 else []
-                out.append(["if", self.cond(), t, e])
+                node = ["if", self.cond(), t, e]
+                if rng.random() < 0.4:
+                    # an `else if` chain of 2-4 conditions, with or without a final else
+                    self.stats["elif"] = self.stats.get("elif", 0) + 1
+                    for _k in range(rng.choice([1, 1, 2, 3])):
+                        self.stats["if"] += 1
+                        node = ["if", self.cond(), self.block(depth - 1, rng.randint(1, 2), inloop, insub), [node], "elif"]
+                out.append(node)
             elif r < 0.87 and depth > 0:
                 self.stats["while"] += 1
                 self.nc += 1
@@ -1723,7 +1738,7 @@ def run(tier, seed, replay=None):
     if tier == "thorough" and not replay and okm:
         shipped = shipped_check(out, rng)
 
-    st = {"if": 0, "while": 0, "do": 0, "tail_do": 0, "tight": 0, "break": 0, "continue": 0, "exec": 0, "set": 0}
+    st = {"if": 0, "elif": 0, "while": 0, "do": 0, "tail_do": 0, "tight": 0, "break": 0, "continue": 0, "exec": 0, "set": 0}
     depths = {}
     for pe in progs:
         for k in st:
